@@ -118,7 +118,12 @@ JSON_Status json_serialize_to_file_pretty(const JSON_Value *v, const char *path)
 }
 #endif
 JSON_Value *json_object_dotget_value(const JSON_Object *o, const char *name) { (void) o; (void) name; return (JSON_Value *) verif_json_ptr(); }
+#ifdef VERIF_TRACK_JSON_TYPE
+int g_json_type;             /* what the last json_value_get_type answered (tracked only in the typed-getter groups) */
+JSON_Value_Type json_value_get_type(const JSON_Value *v) { (void) v; return g_json_type = nondet_int(); }
+#else
 JSON_Value_Type json_value_get_type(const JSON_Value *v) { (void) v; return nondet_int(); }
+#endif
 double json_value_get_number(const JSON_Value *v) { (void) v; double d; return d; }
 int json_value_get_boolean(const JSON_Value *v) { (void) v; return nondet_int(); }
 const char *json_value_get_string(const JSON_Value *v) { (void) v; return (const char *) verif_json_ptr(); }
